@@ -3,6 +3,7 @@ package props
 import (
 	"encoding/json"
 	"fmt"
+	"runtime"
 	"strings"
 	"sync"
 	"testing"
@@ -347,9 +348,42 @@ func runC02Session(s *c02Session) *Violation {
 	}
 	tc.C.HandleFunc("PRIVMSG", rec)
 	tc.C.HandleFunc("NOTICE", rec)
+	// an application-side one-shot handler that removes itself the first time it runs
+	var oneShot client.Remover
+	var once sync.Once
+	oneShot = tc.C.HandleFunc("PRIVMSG", func(_ *client.Conn, l *client.Line) {
+		once.Do(func() { oneShot.Remove() })
+	})
 	if err := tc.connect(); err != nil {
 		return violationf("C02", "connect: %v", err)
 	}
+	// ... and an application goroutine that keeps asking the client questions while lines arrive
+	stopPoll := make(chan struct{})
+	var pollWG sync.WaitGroup
+	pollWG.Add(1)
+	go func() {
+		defer pollWG.Done()
+		for {
+			select {
+			case <-stopPoll:
+				return
+			default:
+			}
+			tc.C.SupportsCapability("sasl")
+			tc.C.HasCapability("a")
+			tc.C.Connected()
+			// (not Me() or String(): on an untracked client they hand out the very struct the built-in
+			// handlers update, which goirc does not promise to be safe from another goroutine)
+			if st := tc.C.StateTracker(); st != nil {
+				st.GetNick("x")
+				st.GetChannel("#c")
+				st.IsOn("#c", "me")
+				_ = st.String()
+			}
+			runtime.Gosched()
+		}
+	}()
+	defer func() { close(stopPoll); pollWG.Wait() }()
 	c := tc.conn()
 	var want []string
 	var all strings.Builder
